@@ -38,6 +38,7 @@ theorem term_cell_exact (pix cells : Nat) (h : cells ≤ pix) (hc : 0 < cells) :
 theorem no_panic_term (F : FloatOps) (wPix hPix w h : Nat) (xpix cols ypix rows : Int) :
     ∃ r, protoCellSizeTerm F wPix hPix w h xpix cols ypix rows = .ok r := by
   unfold protoCellSizeTerm protoCellSize
+  rw [termCellW_eq, termCellH_eq]
   have hcw := termCell_pos xpix cols
   have hch := termCell_pos ypix rows
   obtain ⟨⟨pw, ph⟩, hd⟩ := C20.no_panic F wPix hPix w h _ _ hcw hch
@@ -48,8 +49,10 @@ theorem no_panic_term (F : FloatOps) (wPix hPix w h : Nat) (xpix cols ypix rows 
 /-- **fit on every terminal**: the cell size never exceeds the box, at the cell geometry the terminal reports. -/
 theorem fit_term (F : FloatOps) (hF : Sound F) (wPix hPix w h : Nat) (xpix cols ypix rows : Int) (cw ch : Nat)
     (hw : 0 < wPix) (hh : 0 < hPix)
-    (hr : protoCellSizeTerm F wPix hPix w h xpix cols ypix rows = .ok (cw, ch)) : cw ≤ w ∧ ch ≤ h :=
-  C20.cell_size_fits_proto F hF wPix hPix w h _ _ cw ch hw hh (termCell_pos xpix cols) (termCell_pos ypix rows) hr
+    (hr : protoCellSizeTerm F wPix hPix w h xpix cols ypix rows = .ok (cw, ch)) : cw ≤ w ∧ ch ≤ h := by
+  unfold protoCellSizeTerm at hr
+  rw [termCellW_eq, termCellH_eq] at hr
+  exact C20.cell_size_fits_proto F hF wPix hPix w h _ _ cw ch hw hh (termCell_pos xpix cols) (termCell_pos ypix rows) hr
 
 /-! ## `CellSize()` is exactly the number of cells the resized pixels occupy -/
 
@@ -385,9 +388,13 @@ example : uploads {} [.resize true, .write, .write, .resize true, .resize true, 
 `Gen.ImageFlow` holds the normalised source text of the statements in question; a change to any of them breaks the
 corresponding theorem (and the check then looks for a failing input). -/
 
-open VaxisModel.Gen VaxisModel.Lemmas in
-/-- `cellPixelSize` = `Model.ImageTerm.termCell` in both directions (floor 1, guarded quotient). -/
-theorem facts_cell_pixel_size : ImageFlow.cellPixelSizeBody = ImageFlowExpected.cellPixelSizeBody := by decide +kernel
+/-- **`cellPixelSize` as regenerated** (structured, interpreted by `termCellWith`): both axes start at 1 and take the
+    truncating quotient `pix / cells` when `cells > 0 && pix/cells > 0`; so the interpreted model is the closed form
+    `termCell` about which `term_cell_pos` / `term_cell_exact` speak. -/
+theorem cell_pixel_size_shape :
+    cellPixelSizeW = some ⟨1, .gt, 0, .gt, 0⟩ ∧ cellPixelSizeH = some ⟨1, .gt, 0, .gt, 0⟩ ∧
+    (∀ pix cells, termCellW pix cells = termCell pix cells) ∧ (∀ pix cells, termCellH pix cells = termCell pix cells) :=
+  ⟨cellPixelSize_shape.1, cellPixelSize_shape.2, termCellW_eq, termCellH_eq⟩
 
 open VaxisModel.Gen VaxisModel.Lemmas in
 /-- Both `Resize` methods take the cell geometry from `cellPixelSize`, call `resizeImage` with it, and compute the cell size
